@@ -239,3 +239,18 @@ Example C17_shadowing_nonvacuous :
   ctx_token_subst (ctx_set_local (rule_ctx outer [(t_of "b", VInt (un 10), t_of "{a} * 2")]) (t_of "a") (VInt (un 11))) (t_of "a") = Some (t_of "__a") /\
   ctx_token_subst (fn_ctx outer [(t_of "a", VInt (un 6))]) (t_of "a") = Some (t_of "__a").
 Proof. vm_compute. repeat split. Qed.
+
+(* ===== the unstable flag of a round is a DISJUNCTION over the node list ===== *)
+(* once a label has moved (or a line had no encoding) the round stays unstable whatever the later nodes do: no later
+   label can reset the flag *)
+Theorem C17_block_unstable_monotone : forall mr ao sub first last ns pos res ls v u ls',
+  resolve_nodes mr ao sub first last ns pos res true ls = BOk (v, u, ls') -> u = true.
+Proof. exact unstable_mono. Qed.
+
+(* hence a round that ends stable has moved NO label: the label map it returns is the one it was given, and its value
+   is the in-place meaning under that map (every label, not just the last one, equals the address where it lies) *)
+Theorem C17_block_stable_round_moves_no_label : forall mr ao sub first last ns pos res ls V ls',
+  labels_wf ls -> covers ns ls ->
+  resolve_nodes mr ao sub first last ns pos res false ls = BOk (V, false, ls') ->
+  ls' = ls /\ exists fin, inline_nodes mr ao sub ns ls (negb last) pos res = Some (V, fin).
+Proof. exact stable_round. Qed.
